@@ -348,11 +348,6 @@ protected:
     boost::optional<variable_t> unbounded_ubvar;
     bool underflow, overflow;
 
-    Wt exp_ub = -(ntow::convert(exp.constant(), overflow));
-    if (overflow) {
-      return;
-    }
-
     // temporary hack
     ntow::convert(exp.constant() - 1, underflow);
     if (underflow) {
@@ -360,6 +355,12 @@ protected:
       // minus MIN and it will silently overflow.
       return;
     }
+
+    Wt exp_ub = ntow::convert(exp.constant(), overflow);
+    if (overflow) {
+      return;
+    }
+    exp_ub = -exp_ub;
 
     std::vector<std::pair<std::pair<Wt, variable_t>, Wt>> pos_terms, neg_terms;
     for (auto p : exp) {
